@@ -197,6 +197,12 @@ def fill_caps(rng, lay, rows):
             # carry the row id in one capture so that every transaction is attributable
             k = lay['extras'][0]
             r['caps'][k] = r['caps'][k] + ' r%d' % r['id']
+            if rng.random() < 0.12:
+                # a cell is data: text that looks like a placeholder of this very template stays what it is
+                other = rng.choice(lay['extras'])
+                r['caps'][k] = r['caps'][k] + rng.choice([' {%s}' % other, ' {x}', ' {{braces}}', ' %s $1 \\1', ' {0}'])
+        elif lay['extras'] and rng.random() < 0.05:
+            r['caps'][lay['extras'][0]] = r['caps'][lay['extras'][0]] + ' {description}'
 
 
 def date_cell(lay, row):
